@@ -83,6 +83,7 @@ func genAttCase(t *rapid.T) interface{} {
 		case k < 76:
 			op.Kind = "unbond"
 			op.Val = rapid.IntRange(0, n-1).Draw(t, "val")
+			op.Variant = rapid.SampledFrom([]int{0, 0, 0, 1}).Draw(t, "fully") // 1 = straight to Unbonded
 		case k < 80:
 			op.Kind = "rebond"
 			op.Val = rapid.IntRange(0, n-1).Draw(t, "val")
@@ -293,12 +294,14 @@ func runAttCase(want string) func(ci interface{}, rec *pbt.Rec) *pbt.Failure {
 					}
 					if cnt > 1 {
 						s.Vals[v].Bonded = false
+						// as in x/staking: leaving the active set means Unbonding first
+						s.Vals[v].Unbonding = op.Variant != 1
 					}
 				})
 				dirtySinceVote = true
 			case "rebond":
 				v := op.Val % nvals
-				h.QueueStaking(func(s *sim.SimStaking) { s.Vals[v].Bonded = true })
+				h.QueueStaking(func(s *sim.SimStaking) { s.Vals[v].Bonded, s.Vals[v].Unbonding = true, false })
 				dirtySinceVote = true
 			case "alien":
 				ch := attChains[op.Chain%len(attChains)]
